@@ -71,12 +71,12 @@ def print_decls(decls):
             out += "  Sub %s;\n" % d["name"]
             i += 1
             continue
-        parts = [d["name"] + value_text(d)]
+        parts = [d["name"] + d.get("dims", "") + value_text(d)]
         j = i + 1
         while j < len(decls) and decls[j]["k"] == "var" and decls[j].get("join") and all(
             decls[j][f] == d[f] for f in ("type", "var", "io")
         ):
-            parts.append(decls[j]["name"] + value_text(decls[j]))
+            parts.append(decls[j]["name"] + decls[j].get("dims", "") + value_text(decls[j]))
             j += 1
         out += "  " + " ".join(prefix_words(d) + [d["type"]]) + " " + ", ".join(parts) + ";\n"
         i = j
@@ -244,6 +244,9 @@ def check_case(ctx, case):
         d = decl[n]
         desc = "%s %s%s" % (prefix_combo(d), d["type"], " (in Sub)" if group[n] else "")
         if n not in where:
+            if d.get("dims") == "[0]":
+                # an array without elements has no elementary variable: it may be left out altogether
+                continue
             raise Violation("missing:%s" % cat[n], "%s [%s] is in no category, expected %s\n%s" % (n, desc, cat[n], listing))
         if where[n][0] != cat[n]:
             raise Violation(
@@ -264,7 +267,7 @@ def check_case(ctx, case):
     # -- declaration order inside each category, per declaring class instance
     for c in CATS:
         for g in sorted(set(group.values())):
-            exp_seq = [n for n, _d, gg in fv if gg == g and cat[n] == c]
+            exp_seq = [n for n, _d, gg in fv if gg == g and cat[n] == c and n in where]
             got_seq = [n for n in got[c] if group.get(n) == g]
             if exp_seq != got_seq:
                 raise Violation(
@@ -273,6 +276,7 @@ def check_case(ctx, case):
                 )
 
     # -- outputs -----------------------------------------------------------
+    exp_outputs = [n for n in exp_outputs if n in where]  # (zero-size arrays that were left out)
     outs = list(model.outputs)
     if len(outs) != len(set(outs)):
         raise Violation("outputs_duplicate", "outputs %r\n%s" % (outs, listing))
@@ -332,6 +336,9 @@ def check_case(ctx, case):
     labels.add("instances:%d" % ninst)
     if any(ln.count(",") for ln in print_decls(case["decls"]).splitlines() if '"' not in ln):
         labels.add("joined_declaration")
+    for n, d, g in fv:
+        if d.get("dims"):
+            labels.add("array%s:%s" % (d["dims"], prefix_combo(d)))
     if exp_outputs:
         labels.add("has_outputs")
     if any(decl[n]["io"] == "output" and cat[n] == "states" for n in exp_outputs):
@@ -523,8 +530,8 @@ def initial_equations(r, cands, n, used):
 def fillers(r, decls, n):
     """Harmless equations that mention variables outside any der()."""
     out = []
-    plain = [d for d in decls if d["k"] == "var" and d["var"] in ("", "discrete") and d["io"] != "input"]
-    nums = [d["name"] for d in decls if d["k"] == "var" and d["type"] in ("Real", "Integer")]
+    plain = [d for d in decls if d["k"] == "var" and d["var"] in ("", "discrete") and d["io"] != "input" and not d.get("dims")]
+    nums = [d["name"] for d in decls if d["k"] == "var" and d["type"] in ("Real", "Integer") and not d.get("dims")]
     for _ in range(n):
         if not plain:
             break
@@ -542,7 +549,7 @@ def fillers(r, decls, n):
 
 
 def real_names(decls, pred):
-    return [d["name"] for d in decls if d["k"] == "var" and d["type"] == "Real" and pred(d)]
+    return [d["name"] for d in decls if d["k"] == "var" and d["type"] == "Real" and not d.get("dims") and pred(d)]
 
 
 def build_case(seed):
@@ -566,10 +573,17 @@ def build_case(seed):
         for i in range(ninst):
             decls.insert(r.int(0, len(decls)), {"k": "comp", "name": "ab"[i]})
             sub_cands += ["ab"[i] + "." + c for c in scands]
-    top_cands = real_names(decls, lambda d: d["var"] == "" and d["io"] != "input")
+    # array variables, some without elements, that no equation mentions
+    for i in range(r.choice([0, 0, 1, 1, 2])):
+        decls.insert(r.int(0, len(decls)), {
+            "k": "var", "name": "z%d" % i, "type": r.choice(["Real", "Real", "Integer", "Boolean"]),
+            "var": r.choice(["", "", "discrete", "parameter"]), "io": r.choice(["", "input", "output", "output"]),
+            "value": None, "join": r.int(0, 2) > 0, "dims": r.choice(["[0]", "[0]", "[2]"]),
+        })
+    top_cands = real_names(decls, lambda d: d["var"] == "" and d["io"] != "input" and not d.get("dims"))
     cands = top_cands + sub_cands
     prefixed = real_names(decls, lambda d: d["var"] in ("parameter", "constant") or (d["var"] == "" and d["io"] == "input"))
-    refs = [d["name"] for d in decls if d["k"] == "var" and d["type"] in ("Real", "Integer")] + sub_cands
+    refs = [d["name"] for d in decls if d["k"] == "var" and d["type"] in ("Real", "Integer") and not d.get("dims")] + sub_cands
     used = set()
     # keep some candidates out of the ordinary equations so that states found only in initial equations occur
     eq_cands = cands if r.bool() else (r.perm(cands)[: max(1, len(cands) - 1)])
